@@ -3,12 +3,12 @@ import re
 from contracts import store_local
 
 ID = "C06"
-LEVEL = "other"
+LEVEL = "other"  # the bounded kill injection is part of the check
 EXPLANATION = (
     "Crash Hoare logic in miniature over the file-system model: after EVERY file-system effect on EVERY path through LocalFileStore.store_blob (codec write included) and "
     "LocalFileStore.sync_paths the engine emits the crash condition Recoverable: (R1) every blob the recovery process would report present is a complete file with complete, registered metadata; "
-    "(R3) every path committed before still resolves to a complete blob, its old one or the new one. On the current code R1 is refuted after open/write/close of the blob file and R3 after os.remove "
-    "(open findings); the residual obligations -- the same conditions for every OTHER key and path -- are proved, so a different crash-unsafe state would still be reported. "
+    "(R3) every path committed before still resolves to a complete blob, its old one or the new one. On the pinned code R1 was refuted after open/write/close of the blob file and R3 after os.remove; both were repaired (temporary names + os.replace, "
+    "two fix commits) and every crash condition is now proved. "
     "A native kill -9 injection at every effect boundary (bounded part) replays these and checks re-runnability."
 )
 TRUSTED = ["A-ENGINE", "A-FS: each syscall-level effect is atomic and durable once returned (no fsync modelling); writes are split in two halves natively", "codec writes = open, write, close on the given location"]
